@@ -147,7 +147,14 @@ theorem xden_setNullable (b : Bool) (S : Schemas) : ∀ n t j, nrTy t = true →
       exact h
     | cref _ _ _ _ => simp [nrTy] at hp
     | struct _ _ _ _ => simp [nrTy] at hp
-    | enum _ _ => simp [nrTy] at hp
+    | enum vals em =>
+      cases vals with
+      | nil => simp [nrTy] at hp
+      | cons v0 rest =>
+        have : setNullable true (.enum (v0 :: rest) em) = .enum (v0 :: rest) { em with nullable := true } := rfl
+        rw [this]
+        simp only [xden] at h ⊢
+        exact or_null_mono h
     | inter _ _ => simp [nrTy] at hp
     | slot _ _ => simp [nrTy] at hp
     | bad _ _ => simp [nrTy] at hp
@@ -158,7 +165,9 @@ theorem plainTy_setNullable (b : Bool) (t : Ty) : plainTy (setNullable b t) = pl
   cases t <;> rfl
 
 theorem nrTy_setNullable (b : Bool) (t : Ty) : nrTy (setNullable b t) = nrTy t := by
-  cases t <;> rfl
+  cases t with
+  | enum vs m => cases vs <;> rfl
+  | _ => rfl
 
 theorem isCollLike_setNullable (b : Bool) (t : Ty) : isCollLike (setNullable b t) = isCollLike t := by
   cases t <;> rfl
@@ -200,7 +209,7 @@ theorem NR_vTy_nr : ∀ t : Ty, nrTy t = true → vTy t = t
     · subst hta; simp [vTy, NotRequiredFieldAsNullableType.vList, hnull b hb, NR_vTy_plain _ hpt]
   | .cref .., h => by simp [nrTy] at h
   | .struct .., h => by simp [nrTy] at h
-  | .enum .., h => by simp [nrTy] at h
+  | .enum .., _ => by simp [vTy]
   | .inter .., h => by simp [nrTy] at h
   | .slot .., h => by simp [nrTy] at h
   | .bad .., h => by simp [nrTy] at h
@@ -431,7 +440,10 @@ theorem nr_widenN (S : Schemas) (hP : PlainN S = true) : ∀ n t j, nrTy t = tru
         | bad _ _ => simp [hty] at h
     | cref _ _ _ _ => simp [nrTy] at hp
     | struct _ _ _ _ => simp [nrTy] at hp
-    | enum _ _ => simp [nrTy] at hp
+    | enum vals em =>
+      cases vals with
+      | nil => simp [nrTy] at hp
+      | cons v0 rest => simpa [xden] using h
     | inter _ _ => simp [nrTy] at hp
     | slot _ _ => simp [nrTy] at hp
     | bad _ _ => simp [nrTy] at hp
